@@ -219,9 +219,18 @@ func c13(c *core.Ctx) {
 		key := core.FuncName(apply)
 		var noc *ssa.Call
 		var nocs []*ssa.Call
-		for _, call := range core.CallsIn(apply, func(_ *ssa.Call, ci core.CallInfo) bool { return ci.Is(metadataPkg + ".NewOutgoingContext") }) {
-			noc = call
-			nocs = append(nocs, call)
+		// the attach may sit in a step helper of the package that the credentials step calls
+		family := []*ssa.Function{apply}
+		for _, h := range core.HelperCallsOf(apply) {
+			if h.Callee != nil && h.Callee.Blocks != nil && strings.HasPrefix(core.FuncName(h.Callee), "internal.") {
+				family = append(family, h.Callee)
+			}
+		}
+		for _, f := range family {
+			for _, call := range core.CallsIn(f, func(_ *ssa.Call, ci core.CallInfo) bool { return ci.Is(metadataPkg + ".NewOutgoingContext") }) {
+				noc = call
+				nocs = append(nocs, call)
+			}
 		}
 		if noc == nil {
 			c.Fail(key+":attach", apply.Pos(), "no metadata.NewOutgoingContext call")
@@ -276,15 +285,12 @@ func c13(c *core.Ctx) {
 			// returned ctx on that path is the NewOutgoingContext result
 			retOK := false
 			for _, r := range core.Returns(apply) {
-				if core.OriginIs(r.Results[0], func(o ssa.Value) bool {
+				for _, o := range core.XOrigins(r.Results[0]) {
 					for _, nc := range nocs {
 						if o == ssa.Value(nc) {
-							return true
+							retOK = true
 						}
 					}
-					return false
-				}) {
-					retOK = true
 				}
 			}
 			c.Check(retOK, key+":returns-merged-ctx", noc.Pos(), "the merged context is returned", "the context carrying the merged metadata is not returned")
